@@ -231,9 +231,13 @@ CHECKS = {
              "decoder is exactly the grammar, and soundness of the code's decoder outside the known-finding class "
              "`unterminated-container` (the full statement is refuted by 'li1e', proved as C16_refuted_unterminated). "
              "Tie: exhaustive comparison over the alphabet '012:-ilde' up to length 5 (quick) / 7 (thorough) plus "
-             "mutated documents, oracle = the proved-equivalent strict recogniser applied to the implementation's answer.",
-        note="Partial: soundness only outside the recorded known finding. Not modelled: native stack exhaustion on deep "
-             "nesting. Trusted: Coq kernel, correspondence harness, hand-written model. No axioms.",
+             "mutated documents, oracle = the proved-equivalent strict recogniser applied to the implementation's answer. "
+             "Second part: well-formed documents nested up to 400000 levels, decoded one per process: the grammar and the model "
+             "accept every depth (C16_every_depth_accepted); the recursive implementation aborts on native stack exhaustion "
+             "(known finding stack-exhaustion-on-deep-nesting).",
+        note="Partial: soundness only outside the known finding unterminated-container; termination without crash only below the "
+             "nesting depth the native stack allows (known finding stack-exhaustion-on-deep-nesting). Trusted: Coq kernel, "
+             "correspondence harness, hand-written model. No axioms.",
         technique="Coq proof (mutual induction over grammar / fuel) + exhaustive small-scope and random differential correspondence",
         design="2/C16"),
     "C17": dict(
